@@ -1,200 +1,338 @@
-"""C16 -- region slicing follows Python slice semantics on whole samples (DESIGN 4.16)"""
+"""C16 -- region slicing follows Python slice semantics on whole samples (DESIGN 4.16)
+
+Decided path-wise and semantically (sa/semantic.py): on every path of the slicing functions, with the repository's helpers
+inlined, the byte bounds / sample bounds / seconds bounds are evaluated as formulas on a grid of small inputs and compared with
+what Python slice semantics on whole samples gives.  No rule depends on how the formula is written.
+"""
 import ast
 
-from ..facts import Ctx, norm_cmp, exc_name
+from ..facts import Ctx, norm_cmp, exc_name, ctor_fields, self_field_exprs
 from ..symex import show, walk, term_name
 from .. import pat as P
+from ..semantic import deep_leaves, evaluator, holds, value, Undecided
 from .c05 import check_roles
 
 LEVEL = 'other'
 SELF = P.Pat(lambda t: t == ('self',), 'self')
 
+INTS = (None, -7, -5, -4, -1, 0, 1, 2, 4, 5, 7)
+SECS = (None, 0, 0.25, 0.5, 1, 1.26, 1.999, 2.5, -0.5, -1.3, 3)
+
+
+def eff(lo, hi, n):
+    """the (first, last+1) positions a Python slice [lo:hi] selects in a sequence of length n; empty selections are all equal"""
+    a, b, _ = slice(lo, hi).indices(n)
+    return (a, b) if b > a else None
+
+
+def region_field(cx, clsname):
+    """the field of a view class that holds the region handed to its constructor"""
+    defs = cx.field_defs('core', clsname)
+    c = cx.cls('core', clsname)
+    init = cx.model.find_method('core', c, '__init__')
+    if init is None:
+        return None
+    params = [a.arg for a in init[2].args.args][1:]
+    for f, ds in defs.items():
+        if params and any(d['method'] == '__init__' and d['value'] == ('p', params[0]) for d in ds):
+            return f
+    return None
+
 
 def check(repo, rep):
     cx = Ctx(repo)
     W = lambda n: cx.where('core', n)
+    rc = cx.cls('core', 'AudioRegion')
     gi = cx.fn('core', 'AudioRegion.__getitem__')
-    lv = cx.leaves('core', 'AudioRegion.__getitem__')
-    bps = P.prod(P.role('sample_width', SELF), P.role('channels', SELF))
-    datalen = P.call('len', P.attr(SELF, 'data'))
-    nsamples = P.binop('//', datalen, bps) | P.call('len', SELF)
-    is_cci = lambda t: t[0] == 'call' and t[1][0] == 'g' and t[2][:1] == (('p', 'index'),)
-    START = P.Pat(lambda t: (t[0] == 'sub' and is_cci(t[1]) and t[2] == ('c', 0)) or t == ('attr', ('p', 'index'), 'start'), 'start')
-    STOP = P.Pat(lambda t: (t[0] == 'sub' and is_cci(t[1]) and t[2] == ('c', 1)) or t == ('attr', ('p', 'index'), 'stop'), 'stop')
-
-    def norm_of(B):
-        clamped = P.call('max', P.summ(B, nsamples), P.const(0)) | P.call('max', P.const(0), P.summ(B, nsamples))
-        return B, clamped, P.summ(B, nsamples)
+    DATA = ('attr', ('self',), 'data')
+    LEN = ('call', ('b', 'len'), (DATA,), ())
+    LENSELF = ('call', ('b', 'len'), (('self',),), ())
+    # ================================================================ AudioRegion.__getitem__
+    try:
+        lv = deep_leaves(cx, 'core', rc, gi)
+    except Undecided as exc:
+        rep.unknown('AudioRegion.__getitem__: %s' % exc)
+        lv = []
     nret = 0
+    shapes = {}
     for l in lv:
-        if l.outcome == 'raise':
-            continue
         if l.outcome != 'return':
             continue
         nret += 1
         v = l.value
-        okc = v[0] == 'call' and v[1] == ('g', 'core', 'AudioRegion') and len(v[2]) >= 1
-        rep.ob('slicing returns a new AudioRegion', okc, W(l.node), 'AudioRegion.__getitem__:result', 'returns %s' % show(v)[:80])
+        okc = v is not None and v[0] == 'call' and v[1] == ('g', 'core', 'AudioRegion') and len(v[2]) + len(v[3]) >= 1
+        rep.ob('slicing returns a new AudioRegion', okc, W(l.node), 'AudioRegion.__getitem__:result', 'returns %s' % (show(v)[:80] if v else None))
         if not okc:
             continue
-        d = v[2][0]
-        oks = d[0] == 'sub' and d[1] == ('attr', ('self',), 'data') and d[2][0] == 'slice' and d[2][3] is None
-        rep.ob('the slice is taken from the region\'s own bytes', oks, W(l.node), 'AudioRegion.__getitem__:source', 'data is %s' % show(d)[:100])
-        if not oks:
+        flds = ctor_fields(cx, v)
+        d = flds.get('data')
+        oks = d is not None and d[0] == 'sub' and d[1] == DATA and d[2][0] == 'slice' and d[2][3] is None
+        rep.ob('the slice is taken from the region\'s own bytes', oks, W(l.node), 'AudioRegion.__getitem__:source', 'data is %s' % (show(d)[:100] if d else None))
+        if oks:
+            shapes[id(l)] = (d[2][1], d[2][2])
+    rep.floor('AudioRegion.__getitem__ returning paths', nret, 1)
+    # ---- the byte range selected = Python slice semantics on whole samples, for every kind of bound
+    npoints = 0
+    bad = None
+    undecided = None
+    for sw_ in (1, 2):
+        for ch_ in (1, 2):
+            bps_ = sw_ * ch_
+            for n_ in (0, 1, 3, 6):
+                for a_ in INTS:
+                    for b_ in INTS:
+                        assign = {('p', 'index'): slice(a_, b_), LEN: n_ * bps_, LENSELF: n_, ('attr', ('self',), 'sample_width'): sw_, ('attr', ('self',), 'channels'): ch_,
+                                  ('attr', ('self',), '_sample_size_all_channels'): bps_}
+                        try:
+                            hit = [l for l in lv if holds(l, evaluator(assign))]
+                            if len(hit) != 1:
+                                undecided = '%d paths apply to region[%s:%s]' % (len(hit), a_, b_)
+                                break
+                            l = hit[0]
+                            if l.outcome == 'raise':
+                                bad = bad or (l, 'region[%s:%s] (a valid slice of ints) raises %s' % (a_, b_, exc_name(l)), None)
+                                continue
+                            if id(l) not in shapes:
+                                continue
+                            lo, hi = shapes[id(l)]
+                            ev = evaluator(assign)
+                            lov = value(lo, ev) if lo is not None else None
+                            hiv = value(hi, ev) if hi is not None else None
+                            if not all(x is None or (isinstance(x, int) and not isinstance(x, bool)) for x in (lov, hiv)):
+                                bad = bad or (l, 'region[%s:%s]: byte bounds [%r:%r] are not integers' % (a_, b_, lov, hiv), (lo, hi))
+                                continue
+                            got = eff(lov, hiv, n_ * bps_)
+                            e_ = eff(a_, b_, n_)
+                            want = (e_[0] * bps_, e_[1] * bps_) if e_ else None
+                            npoints += 1
+                            if got != want:
+                                bad = bad or (l, 'region[%s:%s] with %d samples of %d byte(s) x %d channel(s): bytes [%r:%r] are taken, i.e. %s; Python slice semantics on samples gives %s'
+                                              % (a_, b_, n_, sw_, ch_, lov, hiv, got, want), (lo, hi))
+                        except Undecided as exc:
+                            undecided = str(exc)
+                            break
+                    if undecided:
+                        break
+                if undecided:
+                    break
+            if undecided:
+                break
+        if undecided:
+            break
+    if undecided:
+        rep.unknown('AudioRegion.__getitem__: %s' % undecided)
+    elif lv:
+        msg = None
+        if bad:
+            msg = bad[1]
+            if bad[2]:
+                msg += ' [onset term %s ; offset term %s]' % (show(bad[2][0])[:100] if bad[2][0] else None, show(bad[2][1])[:120] if bad[2][1] else None)
+        rep.ob('region[a:b] selects exactly the bytes of samples a..b under Python slice semantics (negative, omitted and out-of-range bounds included)', bad is None,
+               W(bad[0].node) if bad else W(gi), 'AudioRegion.__getitem__:byte-range', msg, sample=dict(rule='byte range', grid_points=npoints))
+        rep.floor('grid points of the sample-slicing rule', npoints, 1000)
+    # ---- invalid indices raise TypeError
+    for label, idx in (('a non-slice index', 3), ('a slice with a step', slice(0, 2, 1)), ('a float start bound', slice(0.5, 2)), ('a float stop bound', slice(0, 2.5)), ('a string bound', slice('a', None))):
+        assign = {('p', 'index'): idx, LEN: 8, LENSELF: 4, ('attr', ('self',), 'sample_width'): 2, ('attr', ('self',), 'channels'): 1}
+        try:
+            hit = [l for l in lv if holds(l, evaluator(assign))]
+        except Undecided as exc:
+            rep.unknown('AudioRegion.__getitem__ with %s: %s' % (label, exc))
             continue
-        lo, hi = d[2][1], d[2][2]
-        for name, bound, B, isstart in (('start', lo, START, True), ('stop', hi, STOP, False)):
-            raw, clamped, unclamped = norm_of(B)
-            if bound is None or bound == ('c', None):
-                if isstart:
-                    # omitted start: byte 0 (also fine)
-                    rep.ob('onset = start sample * bytes_per_sample', True, W(l.node))
-                else:
-                    none_cond = any(norm_cmp(c[0], c[1]) and norm_cmp(c[0], c[1])[0] == 'is' and STOP(norm_cmp(c[0], c[1])[1]) and norm_cmp(c[0], c[1])[2] == ('c', None) for c in l.conds)
-                    rep.ob('an omitted stop means "to the end" (offset None only when stop is None)', none_cond, W(l.node), 'AudioRegion.__getitem__:stop-none', 'offset is None under %s' % [(show(c[0])[:50], c[1]) for c in l.conds])
-                continue
-            if bound == ('c', 0) and isstart:
-                continue
-            fs = None
-            ok_raw = P.prod(raw, bps)(bound)
-            ok_clamped = P.prod(clamped, bps)(bound)
-            bad_unclamped = P.prod(unclamped, bps)(bound)
-            neg = any((g := norm_cmp(c[0], c[1])) and g[0] == '<' and B(g[1]) and g[2] == ('c', 0) for c in l.conds)
-            ok = ok_raw or (ok_clamped and neg)
-            msg = '%s byte bound is %s' % (name, show(bound)[:160])
-            if bad_unclamped:
-                msg += ' (negative index normalised without clamping at 0: wraps around again for indices below -len)'
-            elif ok_clamped and not neg:
-                msg += ' (the + len normalisation is applied to a non-negative index)'
-            elif not ok:
-                uses_other = any((STOP if isstart else START)(x) for x in walk(bound))
-                has_bps = any(bps(x) for x in walk(bound))
-                if uses_other:
-                    msg += ' (computed from the other bound)'
-                if not has_bps:
-                    msg += ' (not a multiple of sample_width * channels: breaks sample alignment)'
-            rep.ob('%s byte bound = %s sample index (raw, or + len clamped at 0 when negative) * sample_width * channels' % (name, name), ok, W(l.node),
-                   'AudioRegion.__getitem__:%s[%s]' % (name, 'negative' if neg else 'non-negative'), msg, sample=dict(bound=name, negative_path=neg, term=show(bound)[:140]))
-    rep.floor('AudioRegion.__getitem__ returning paths', nret, 3)
-    # index validation precedes everything and raises TypeError
-    cci_calls = [e for l in lv for e in l.effects if e[0] == 'call' and is_cci(e[1])]
-    rep.ob('sample slicing validates the index (slice, no step, int bounds)', bool(cci_calls) and all(e[4] == 0 for e in cci_calls), W(gi), 'AudioRegion.__getitem__:validation')
-    for e in cci_calls[:1]:
-        types = e[1][2][1] if len(e[1][2]) > 1 else None
-        rep.ob('sample slicing accepts int bounds only', types == ('b', 'int'), W(e[3]), 'AudioRegion.__getitem__:types', 'types %s' % (show(types) if types else None))
-    # ---------------------------------------------------------------- _check_convert_index
-    cn = None
-    for e in cci_calls[:1]:
-        cn = e[1][1][2]
-    if cn is None:
-        rep.unknown('index validation helper not found')
+        if len(hit) != 1:
+            rep.unknown('AudioRegion.__getitem__ with %s: %d paths apply' % (label, len(hit)))
+            continue
+        l = hit[0]
+        rep.ob('sample slicing rejects %s with TypeError' % label, l.outcome == 'raise' and exc_name(l) == 'TypeError', W(l.node) if l.node is not None else W(gi), 'AudioRegion.__getitem__:reject[%s]' % label,
+               'outcome %s %s' % (l.outcome, exc_name(l) if l.outcome == 'raise' else ''), sample=dict(index=repr(idx), outcome='TypeError'))
+    # ================================================================ len
+    ll = cx.leaves('core', 'AudioRegion.__len__')
+    fields = self_field_exprs(cx, 'core', 'AudioRegion')
+    for l in ll:
+        if l.outcome == 'return':
+            okl, why = True, None
+            npts = 0
+            try:
+                for rate_ in (8, 100, 8000, 44100):
+                    for sw_ in (1, 2, 4):
+                        for ch_ in (1, 2, 3):
+                            for n_ in list(range(0, 40)) + [999, 1000, 1001, 1002, 4409, 4411]:
+                                got = value(l.value, evaluator({LEN: n_ * sw_ * ch_, ('attr', ('self',), 'sample_width'): sw_, ('attr', ('self',), 'channels'): ch_, ('attr', ('self',), '_sample_size_all_channels'): sw_ * ch_,
+                                                                ('attr', ('self',), 'sampling_rate'): rate_}), fields)
+                                npts += 1
+                                if okl and (got != n_ or isinstance(got, float)):
+                                    okl, why = False, 'for %d bytes, width %d, %d channel(s), %d Hz it gives %r, not %d' % (n_ * sw_ * ch_, sw_, ch_, rate_, got, n_)
+                rep.ob('len(region) = len(data) // (sample_width * channels)', okl, W(l.node), 'AudioRegion.__len__', 'returns %s: %s' % (show(l.value)[:100], why), sample=dict(len=show(l.value)[:80], grid_points=npts))
+            except Undecided as exc:
+                rep.unknown('AudioRegion.__len__: %s' % exc)
+    # ================================================================ seconds view
+    vc = cx.cls('core', '_SecondsView')
+    vf = cx.model.find_method('core', vc, '__getitem__')
+    rf = region_field(cx, '_SecondsView')
+    sv = []
+    if rf is None:
+        rep.unknown('_SecondsView: the field holding the region was not identified')
     else:
-        cl = cx.leaves('core', cn)
-        cfn = cx.fn('core', cn)
-        raising = [l for l in cl if l.outcome == 'raise']
-        for l in raising:
-            rep.ob('index validation raises TypeError', exc_name(l) == 'TypeError', W(l.node), '%s:exception' % cn, 'raises %s' % exc_name(l))
-        kinds = dict(notslice=False, step=False, start=False, stop=False)
-        for l in raising:
-            ct, tr, _ = l.conds[-1]
-            if ct[0] == 'call' and ct[1] == ('b', 'isinstance') and ct[2][0] == ('p', 'index') and ct[2][1] == ('b', 'slice') and not tr:
-                kinds['notslice'] = True
-            g = norm_cmp(ct, tr)
-            if g and g[0] == 'is not' and g[1] == ('attr', ('p', 'index'), 'step') and g[2] == ('c', None):
-                kinds['step'] = True
-            if ct[0] == 'call' and ct[1] == ('b', 'isinstance') and not tr and ct[2][1] == ('p', 'types'):
-                tgt = ct[2][0]
-                if any(x == ('attr', ('p', 'index'), 'start') for x in walk(tgt)):
-                    kinds['start'] = True
-                if any(x == ('attr', ('p', 'index'), 'stop') for x in walk(tgt)):
-                    kinds['stop'] = True
-        aggregated = any(any(x[0] == 'call' and x[1][0] == 'b' and x[1][1] in ('any', 'all') for x in walk(l.conds[-1][0])) for l in raising if l.conds)
-        for k, lab in (('notslice', 'a non-slice index'), ('step', 'a slice with a step'), ('start', 'a start bound of the wrong type'), ('stop', 'a stop bound of the wrong type')):
-            if not kinds[k] and k in ('start', 'stop') and aggregated:
-                rep.unknown('%s: the type test of the bounds is aggregated with any()/all(): not analysed per bound' % cn)
-                continue
-            rep.ob('index validation rejects %s' % lab, kinds[k], W(cfn), '%s:missing-%s-check' % (cn, k))
-        for l in cl:
+        REG = ('attr', ('self',), rf)
+        try:
+            sv = deep_leaves(cx, vf[0], vc, vf[2])
+        except Undecided as exc:
+            rep.unknown('_SecondsView.__getitem__: %s' % exc)
+        shapes = {}
+        for l in sv:
             if l.outcome != 'return':
                 continue
             v = l.value
-            ok = v[0] == 'tuple' and len(v[1]) == 2 and v[1][1] == ('attr', ('p', 'index'), 'stop') and \
-                (v[1][0] == ('ite', ('cmp', 'is', ('attr', ('p', 'index'), 'start'), ('c', None)), ('c', 0), ('attr', ('p', 'index'), 'start')) or v[1][0] == ('attr', ('p', 'index'), 'start'))
-            rep.ob('index validation returns (start or 0, stop) unchanged', ok, W(l.node), '%s:result' % cn, 'returns %s' % show(v)[:120])
-            # accepted only after the checks passed
-            passed = any(c[0][0] == 'call' and c[0][1] == ('b', 'isinstance') and c[0][2][1] == ('b', 'slice') and c[1] for c in l.conds) and \
-                any((g := norm_cmp(c[0], c[1])) and g[0] == 'is' and g[1] == ('attr', ('p', 'index'), 'step') for c in l.conds)
-            rep.ob('an index is accepted only if it is a slice without a step', passed, W(l.node), '%s:accept-path' % cn)
-    # ---------------------------------------------------------------- len
-    ll = cx.leaves('core', 'AudioRegion.__len__')
-    for l in ll:
-        if l.outcome == 'return':
-            rep.ob('len(region) = len(data) // (sample_width * channels)', P.binop('//', datalen, bps)(l.value), W(l.node), 'AudioRegion.__len__', 'returns %s' % show(l.value)[:100], sample=dict(len=show(l.value)[:80]))
-    # ---------------------------------------------------------------- seconds view
-    sv = cx.leaves('core', '_SecondsView.__getitem__')
-    region = P.attr(SELF, '_region')
-    rate = P.role('sampling_rate', region) | P.role('sampling_rate')
-    for l in sv:
-        if l.outcome != 'return':
-            continue
-        v = l.value
-        ok = v[0] == 'sub' and region(v[1]) and v[2][0] == 'slice' and v[2][3] is None
-        rep.ob('the seconds view delegates to sample slicing of the region', ok, W(l.node), '_SecondsView.__getitem__:delegation', 'returns %s' % show(v)[:120])
-        if not ok:
-            continue
-        lo, hi = v[2][1], v[2][2]
-        S0 = P.Pat(lambda t: t[0] == 'sub' and t[1][0] == 'call' and t[2] == ('c', 0), 'start_s')
-        S1 = P.Pat(lambda t: t[0] == 'sub' and t[1][0] == 'call' and t[2] == ('c', 1), 'stop_s')
-        rep.ob('seconds view: start sample = int(start * rate) (truncated toward zero)', lo is not None and P.call('int', P.prod(S0, rate))(lo), W(l.node), '_SecondsView.__getitem__:start', 'start sample is %s' % (show(lo)[:120] if lo else None),
-               sample=dict(view='seconds', start=show(lo)[:100] if lo else None))
-        want_hi = P.call('round', P.prod(S1, rate))
-        none_path = any((g := norm_cmp(c[0], c[1])) and g[0] == 'is' and S1(g[1]) and g[2] == ('c', None) for c in l.conds)
-        some_path = any((g := norm_cmp(c[0], c[1])) and g[0] == 'is not' and S1(g[1]) and g[2] == ('c', None) for c in l.conds)
-        if none_path:
-            okh = hi is None or hi == ('c', None)
-        elif some_path:
-            okh = hi is not None and want_hi(hi)
-        else:
-            okh = hi is not None and hi[0] == 'ite' and norm_cmp(hi[1], True) and norm_cmp(hi[1], True)[0] in ('is', 'is not') and S1(norm_cmp(hi[1], True)[1])
-            if okh:
-                g = norm_cmp(hi[1], True)
-                none_branch, val_branch = (hi[2], hi[3]) if g[0] == 'is' else (hi[3], hi[2])
-                okh = none_branch == ('c', None) and want_hi(val_branch)
-        rep.ob('seconds view: stop sample = round(stop * rate), None when omitted', bool(okh), W(l.node), '_SecondsView.__getitem__:stop', 'stop sample is %s' % (show(hi)[:160] if hi else None),
-               sample=dict(view='seconds', stop=show(hi)[:120] if hi else None))
-        cc = [x for x in walk(v) if x[0] == 'call' and x[1][0] == 'g' and x[1][2] == (cn or '')]
-        for c in cc[:1]:
-            t = c[2][1] if len(c[2]) > 1 else None
-            names = sorted(x[1] for x in (t[1] if t and t[0] in ('tuple', 'list') else [t] if t else []) if x and x[0] == 'b')
-            rep.ob('seconds view accepts int and float bounds', names == ['float', 'int'], W(l.node), '_SecondsView.__getitem__:types', 'types %s' % names)
-    # ---------------------------------------------------------------- millis view
-    mv = cx.leaves('core', '_MillisView.__getitem__')
+            ok = v is not None and v[0] == 'sub' and v[1] == REG and v[2][0] == 'slice' and v[2][3] is None
+            rep.ob('the seconds view delegates to sample slicing of the region', ok, W(l.node), '_SecondsView.__getitem__:delegation', 'returns %s' % (show(v)[:120] if v else None))
+            if ok:
+                shapes[id(l)] = (v[2][1], v[2][2])
+        bad = undecided = None
+        npoints = 0
+        for rate_ in (8, 10, 16000, 44100):
+            for a_ in SECS:
+                for b_ in SECS:
+                    assign = {('p', 'index'): slice(a_, b_), ('attr', REG, 'sampling_rate'): rate_}
+                    try:
+                        hit = [l for l in sv if holds(l, evaluator(assign, mode='frac'))]
+                        if len(hit) != 1:
+                            undecided = '%d paths apply to region.sec[%s:%s]' % (len(hit), a_, b_)
+                            break
+                        l = hit[0]
+                        if l.outcome == 'raise':
+                            bad = bad or (l, 'region.sec[%s:%s] (valid bounds) raises %s' % (a_, b_, exc_name(l)))
+                            continue
+                        if id(l) not in shapes:
+                            continue
+                        lo, hi = shapes[id(l)]
+                        ev = evaluator(assign, mode='frac')
+                        lov = value(lo, ev) if lo is not None else None
+                        hiv = value(hi, ev) if hi is not None else None
+                        want_lo = int((a_ or 0) * rate_)
+                        want_hi = None if b_ is None else round(b_ * rate_)
+                        npoints += 1
+                        if (lov or 0) != want_lo or isinstance(lov, float):
+                            bad = bad or (l, 'region.sec[%s:%s] at %d Hz starts at sample %r (term %s); the start is int(start * rate) = %d' % (a_, b_, rate_, lov, show(lo)[:80] if lo else None, want_lo))
+                        if hiv != want_hi or isinstance(hiv, float):
+                            bad = bad or (l, 'region.sec[%s:%s] at %d Hz stops at sample %r (term %s); the stop is %s' % (a_, b_, rate_, hiv, show(hi)[:80] if hi else None, 'None (omitted)' if want_hi is None else 'round(stop * rate) = %d' % want_hi))
+                    except Undecided as exc:
+                        undecided = str(exc)
+                        break
+                if undecided:
+                    break
+            if undecided:
+                break
+        if undecided:
+            rep.unknown('_SecondsView.__getitem__: %s' % undecided)
+        elif sv:
+            rep.ob('seconds view: start sample = int(start * rate) (0 when omitted), stop sample = round(stop * rate) (None when omitted)', bad is None, W(bad[0].node) if bad else W(vf[2]),
+                   '_SecondsView.__getitem__:bounds', bad[1] if bad else None, sample=dict(view='seconds', grid_points=npoints))
+            rep.floor('grid points of the seconds-view rule', npoints, 300)
+        for label2, idx, want_raise in (('a non-slice index', 1.5, True), ('a slice with a step', slice(0, 1, 1), True), ('a string bound', slice('a', None), True), ('int bounds', slice(1, 2), False), ('float bounds', slice(0.5, 1.5), False)):
+            try:
+                hit = [l for l in sv if holds(l, evaluator({('p', 'index'): idx, ('attr', REG, 'sampling_rate'): 10}, mode='frac'))]
+            except Undecided as exc:
+                rep.unknown('_SecondsView.__getitem__ with %s: %s' % (label2, exc))
+                continue
+            if len(hit) != 1:
+                rep.unknown('_SecondsView.__getitem__ with %s: %d paths apply' % (label2, len(hit)))
+                continue
+            l = hit[0]
+            if want_raise:
+                rep.ob('the seconds view rejects %s with TypeError' % label2, l.outcome == 'raise' and exc_name(l) == 'TypeError', W(l.node) if l.node is not None else W(vf[2]), '_SecondsView.__getitem__:reject[%s]' % label2)
+            else:
+                rep.ob('the seconds view accepts %s' % label2, l.outcome == 'return', W(l.node) if l.node is not None else W(vf[2]), '_SecondsView.__getitem__:accept[%s]' % label2, 'outcome %s' % l.outcome)
+    # ================================================================ millis view
+    mc = cx.cls('core', '_MillisView')
+    mf = cx.model.find_method('core', mc, '__getitem__')
+    try:
+        mv = deep_leaves(cx, mf[0], mc, mf[2])
+    except Undecided as exc:
+        rep.unknown('_MillisView.__getitem__: %s' % exc)
+        mv = []
+    shapes = {}
     for l in mv:
         if l.outcome != 'return':
             continue
         v = l.value
-        ok = v[0] == 'call' and v[1][0] == 'attr' and v[1][2] == '__getitem__' and v[1][1] == ('call', ('b', 'super'), (), ()) and len(v[2]) == 1 and v[2][0][0] == 'call' and v[2][0][1] == ('b', 'slice')
-        rep.ob('the milliseconds view delegates to the seconds view', ok, W(l.node), '_MillisView.__getitem__:delegation', 'returns %s' % show(v)[:120])
-        if not ok:
+        ok = v is not None and v[0] == 'call' and v[1][0] == 'attr' and v[1][2] == '__getitem__' and v[1][1][0] == 'call' and v[1][1][1] == ('b', 'super') and len(v[2]) == 1 and not v[3]
+        direct = v is not None and rf is not None and v[0] == 'sub' and v[1] == ('attr', ('self',), rf) and v[2][0] == 'slice' and v[2][3] is None
+        if direct:
+            shapes[id(l)] = ('direct', v[2][1], v[2][2])       # slices the region in samples itself: must equal the composition
             continue
-        a = v[2][0][2]
-        M0 = P.Pat(lambda t: t[0] == 'sub' and t[1][0] == 'call' and t[2] == ('c', 0), 'start_ms')
-        M1 = P.Pat(lambda t: t[0] == 'sub' and t[1][0] == 'call' and t[2] == ('c', 1), 'stop_ms')
-        ok0 = len(a) == 2 and P.binop('/', M0, P.const(1000))(a[0])
-        rep.ob('milliseconds view: start = t / 1000 seconds', ok0, W(l.node), '_MillisView.__getitem__:start', 'start is %s' % (show(a[0])[:100] if a else None), sample=dict(view='millis', start=show(a[0])[:80] if a else None))
-        hi = a[1] if len(a) == 2 else None
-        okh = hi is not None and hi[0] == 'ite' and hi[2 if norm_cmp(hi[1], True)[0] == 'is' else 3] == ('c', None) and P.binop('/', M1, P.const(1000))(hi[3 if norm_cmp(hi[1], True)[0] == 'is' else 2])
-        rep.ob('milliseconds view: stop = t / 1000 seconds, None when omitted', bool(okh), W(l.node), '_MillisView.__getitem__:stop', 'stop is %s' % (show(hi)[:120] if hi else None))
-        cc = [x for x in walk(v) if x[0] == 'call' and x[1][0] == 'g' and x[1][2] == (cn or '')]
-        for c in cc[:1]:
-            t = c[2][1] if len(c[2]) > 1 else None
-            rep.ob('milliseconds view accepts int bounds only', t == ('b', 'int'), W(l.node), '_MillisView.__getitem__:types', 'types %s' % (show(t) if t else None))
+        if not ok:
+            rep.unknown('_MillisView.__getitem__: the result %s is neither a delegation to the seconds view through super() nor a sample slice of the region' % (show(v)[:100] if v else None))
+            continue
+        rep.ob('the milliseconds view delegates to the seconds view', ok, W(l.node), '_MillisView.__getitem__:delegation', 'returns %s' % (show(v)[:120] if v else None))
+        shapes[id(l)] = ('super', v[2][0])
+    bad = undecided = None
+    npoints = 0
+    for rate_ in (10, 8000, 44100, 1234):
+        for a_ in INTS + (250, 1500, -999):
+            for b_ in INTS + (250, 1500, -999):
+                assign = {('p', 'index'): slice(a_, b_)}
+                if rf is not None:
+                    assign[('attr', ('attr', ('self',), rf), 'sampling_rate')] = rate_
+                try:
+                    hit = [l for l in mv if holds(l, evaluator(assign))]
+                    if len(hit) != 1:
+                        undecided = '%d paths apply to region.ms[%s:%s]' % (len(hit), a_, b_)
+                        break
+                    l = hit[0]
+                    if l.outcome == 'raise':
+                        bad = bad or (l, 'region.ms[%s:%s] (valid int bounds) raises %s' % (a_, b_, exc_name(l)))
+                        continue
+                    if id(l) not in shapes:
+                        continue
+                    want = slice((a_ or 0) / 1000, None if b_ is None else b_ / 1000)
+                    npoints += 1
+                    if shapes[id(l)][0] == 'super':
+                        got = value(shapes[id(l)][1], evaluator(assign))
+                        same = isinstance(got, slice) and got.step is None and (got.start or 0) == want.start and got.stop == want.stop
+                        if not same:
+                            bad = bad or (l, 'region.ms[%s:%s] is handed to the seconds view as %r; milliseconds / 1000 gives %r' % (a_, b_, got, want))
+                    else:
+                        ev = evaluator(assign)
+                        lo, hi = shapes[id(l)][1], shapes[id(l)][2]
+                        lov = value(lo, ev) if lo is not None else None
+                        hiv = value(hi, ev) if hi is not None else None
+                        want_lo = int(want.start * rate_)
+                        want_hi = None if want.stop is None else round(want.stop * rate_)
+                        if (lov or 0) != want_lo or hiv != want_hi or isinstance(lov, float) or isinstance(hiv, float):
+                            bad = bad or (l, 'region.ms[%s:%s] at %d Hz selects samples [%r:%r]; the seconds view of [%r:%r] s selects [%r:%r]' % (a_, b_, rate_, lov, hiv, want.start, want.stop, want_lo, want_hi))
+                except Undecided as exc:
+                    undecided = str(exc)
+                    break
+            if undecided:
+                break
+        if undecided:
+            break
+    if undecided:
+        rep.unknown('_MillisView.__getitem__: %s' % undecided)
+    elif mv and shapes:
+        rep.ob('milliseconds view: bounds are t / 1000 seconds (None when omitted), then the seconds view', bad is None, W(bad[0].node) if bad else W(mf[2]), '_MillisView.__getitem__:bounds', bad[1] if bad else None,
+               sample=dict(view='millis', grid_points=npoints))
+        rep.floor('grid points of the milliseconds-view rule', npoints, 100)
+    for label2, idx, want_raise in (('a float bound', slice(0.5, 2), True), ('a non-slice index', 3, True), ('a slice with a step', slice(0, 2, 1), True), ('int bounds', slice(1, 2), False)):
+        try:
+            hit = [l for l in mv if holds(l, evaluator({('p', 'index'): idx}))]
+        except Undecided as exc:
+            rep.unknown('_MillisView.__getitem__ with %s: %s' % (label2, exc))
+            continue
+        if len(hit) != 1:
+            rep.unknown('_MillisView.__getitem__ with %s: %d paths apply' % (label2, len(hit)))
+            continue
+        l = hit[0]
+        if want_raise:
+            rep.ob('the milliseconds view rejects %s with TypeError' % label2, l.outcome == 'raise' and exc_name(l) == 'TypeError', W(l.node) if l.node is not None else W(mf[2]), '_MillisView.__getitem__:reject[%s]' % label2)
+        else:
+            rep.ob('the milliseconds view accepts %s' % label2, l.outcome == 'return', W(l.node) if l.node is not None else W(mf[2]), '_MillisView.__getitem__:accept[%s]' % label2, 'outcome %s' % l.outcome)
     check_roles(cx, rep, lambda p: p['func'] in ('AudioRegion.__getitem__', '_SecondsView.__getitem__', 'AudioRegion.__post_init__'), floor=4)
-    # duration (shared with C05)
-    from . import c05
-    rep.explanation = ('Slicing formulas decided from provenance terms on every path of AudioRegion.__getitem__: the result is AudioRegion(self.data[onset:offset], same parameters); each byte bound is a sample '
-                       'index times sample_width*channels where the index is the raw bound (bytes slicing clamps and len(data) is a whole number of samples) or, on the negative path only, max(bound + len, 0) -- '
-                       'an unclamped bound + len, a bound computed from the other index, or a bound that is not a multiple of the sample size is a violation; offset None only when stop is None; index validation '
-                       'first, TypeError for non-slice / step / wrong-typed bound; len = len(data)//(width*channels); seconds view: int(start*rate), round(stop*rate), int|float bounds, delegates to sample '
-                       'slicing; milliseconds view: bounds/1000 then the seconds view, int bounds. NOT decided: the float claim "within one sample period".')
+    rep.explanation = ('Slicing decided path-wise and semantically: AudioRegion.__getitem__, _SecondsView.__getitem__ and _MillisView.__getitem__ are enumerated path by path with every repository helper '
+                       'inlined and every conditional expression turned into a branch; on a grid of small inputs (bounds None / negative / zero / positive / beyond the length, 1-2 byte samples, 1-2 channels, '
+                       '0-6 samples; seconds bounds with fractions at 8 Hz .. 44.1 kHz) the path whose condition holds is selected and its bound terms are evaluated as formulas (terms extracted from the '
+                       'source, never auditok code): the bytes selected must be exactly those of Python slice semantics on whole samples; seconds: int(start*rate), round(stop*rate), None when omitted; '
+                       'milliseconds: t/1000 then the seconds view; non-slice / stepped / wrong-typed indices must reach a path that raises TypeError. The result must be a new AudioRegion over '
+                       'self.data[...]; len = len(data)//(width*channels). A term the evaluator cannot evaluate makes the rule INCONCLUSIVE, never a violation. '
+                       'NOT decided: the float claim "within one sample period" beyond the grid.')
     rep.assumptions = ['len(self.data) is a whole number of samples (enforced by check_audio_data in __post_init__, C11/C17)', 'bytes slicing has Python slice semantics']
+    rep.analysed['functions'] = ['core.AudioRegion.__getitem__', 'core._check_convert_index', 'core._SecondsView.__getitem__', 'core._MillisView.__getitem__', 'core.AudioRegion.__len__']
